@@ -554,13 +554,28 @@ func (h *harness) checkDataset(kind, hashName string, d dataset, variants int) {
 
 	// ---- C03: relabel x permute variants, flipped variant
 	var varOuts []string
-	if h.prop == "C03" && g.c != nil {
-		for i := 0; i < variants; i++ {
+	if g.c != nil {
+		nv := variants
+		if h.prop != "C03" {
+			nv = (variants + 2) / 3 // C04: fewer isomorphic copies; the full relabel x permute oracle is C03's
+		}
+		for i := 0; i < nv; i++ {
 			v := d.variant(h.r)
 			vg := goCanon(hashName, v)
 			varOuts = append(varOuts, vh.X(vg.bytes)+"#"+strings.Fields(vg.line + " x")[0])
 		}
-		h.flipCheck(hashName, d, g)
+		// the identical input again: only Go's map iteration order can differ between these runs
+		reps := 2
+		if strings.Contains(kind, "components") {
+			reps = 6
+		}
+		for i := 0; i < reps; i++ {
+			rg := goCanon(hashName, d)
+			varOuts = append(varOuts, vh.X(rg.bytes)+"#"+strings.Fields(rg.line + " x")[0])
+		}
+		if h.prop == "C03" {
+			h.flipCheck(hashName, d, g)
+		}
 	}
 
 	if *nomodel {
@@ -651,10 +666,14 @@ func (h *harness) checkDataset(kind, hashName string, d dataset, variants int) {
 			if h.prop == "C04" && !in(goB, bs) {
 				bad = "C04: canonical bytes differ from Spec.RDFC10"
 			}
-			if h.prop == "C03" && !sensitive {
+			if bad == "" && !sensitive {
 				for _, vo := range varOuts {
 					if vo != goB+"#ok" {
-						bad = "C03: a relabelled/permuted variant of the dataset canonicalizes differently although RDFC-1.0 is order-insensitive on it (variant: " + clip(vo) + ")"
+						if h.prop == "C03" {
+							bad = "C03: a relabelled/permuted variant of the dataset (or the same input run again) canonicalizes differently although RDFC-1.0 is order-insensitive on it (variant: " + clip(vo) + ")"
+						} else {
+							bad = "C04: an isomorphic copy of the dataset (or the same input run again) does not yield the canonical document Spec.RDFC10 defines for it (got: " + clip(vo) + ")"
+						}
 						break
 					}
 				}
@@ -918,11 +937,60 @@ func (h *harness) mixedRing(n int) shape {
 	return s
 }
 
+// predPool: predicate IRIs whose first-degree hashes order differently relative to each other, so that the
+// order in which step 5 processes the tie groups varies between datasets.
+var predPool = []string{exP, exQ, "http://example.org/knows", "http://example.org/next", "http://example.org/vocab#p",
+	"http://xmlns.com/foaf/0.1/knows", "urn:ex:p", "http://example.org/a", "http://example.org/zz", "http://www.w3.org/2000/01/rdf-schema#seeAlso",
+	"http://example.org/vocab#next", "http://example.org/vocab#prev", "http://schema.org/knows", "urn:x", "http://e/p", "http://e/q",
+	"http://purl.org/dc/terms/relation", "http://example.org/b", "http://example.org/c", "http://example.org/d"}
+
+// components: several disconnected components over ONE predicate whose nodes tie on first-degree hashes
+// across components (chain ends/middles, star leaves, cycle nodes, separate edges): a tie group then mixes
+// nodes labelled through another node's hash path with nodes still unlabelled.
+func (h *harness) components(maxNodes int) shape {
+	r := h.r
+	p := vh.Pick(r, predPool)
+	s := shape{name: "components"}
+	kinds := 3 + r.Intn(3)
+	for k := 0; k < kinds; k++ {
+		var c shape
+		switch r.Intn(5) {
+		case 0, 1:
+			c = pathShape(2+r.Intn(4), p) // chains of 1..4 edges (a separate edge is the 2-node chain)
+		case 2:
+			c = star(3+r.Intn(3), p, r.Bool())
+		case 3:
+			c = cycle(2+r.Intn(4), p)
+		default:
+			c = pathShape(2, p)
+		}
+		if s.n+c.n > maxNodes && s.n > 0 {
+			break
+		}
+		s.qs = append(s.qs, c.shift(s.n).qs...)
+		s.n += c.n
+	}
+	if s.n == 0 {
+		s = pathShape(2, p)
+		s.name = "components"
+	}
+	return s
+}
+
 func (h *harness) randomShape(maxNodes int) shape {
 	r := h.r
 	p := vh.Pick(r, []string{exP, exP, "http://example.org/q"})
 	var s shape
-	switch r.Intn(9) {
+	switch r.Intn(11) {
+	case 9, 10:
+		mn := maxNodes
+		if mn < 12 {
+			mn = 12
+		}
+		s = h.components(mn)
+		if r.Chance(70) {
+			return s // mostly undecorated: decorations break the ties across components
+		}
 	case 7:
 		ps := []string{exP, exQ}
 		if r.Chance(25) {
@@ -1587,6 +1655,20 @@ func Main(prop string) {
 			for _, hn := range []string{"sha256", "test8"} {
 				h.checkDataset(s.name, hn, fromG(s.qs, func(i int) string { return fmt.Sprintf("e%d", i) }), 16)
 			}
+		}
+		// disconnected components with tied nodes (step 5.2.1: a tie group mixing labelled and unlabelled nodes),
+		// one dataset per predicate of the pool so that the group processing order varies
+		for i, p := range predPool {
+			a := pathShape(4, p) // 3-edge chain
+			b := pathShape(2, p).shift(4)
+			c := shape{name: "corpus:components", n: 6, qs: append(append([]vh.GQuad{}, a.qs...), b.qs...)}
+			if i%2 == 1 { // a second variety: chains of 2 and 3 edges, a 3-cycle and a star
+				x := pathShape(3, p)
+				y := pathShape(4, p).shift(3)
+				z := star(3, p, true).shift(7)
+				c = shape{name: "corpus:components", n: 10, qs: append(append(append([]vh.GQuad{}, x.qs...), y.qs...), z.qs...)}
+			}
+			h.checkDataset(c.name, "sha256", fromG(c.qs, func(i int) string { return fmt.Sprintf("e%d", i) }), 16)
 		}
 		for _, s := range []shape{tie, twoStars(9), twoStars(8), twoStars(7), cycle(520, exP), cycle(505, exP), clique(7, exP, false)} {
 			if strings.HasPrefix(s.name, "corpus") == false {
